@@ -565,6 +565,9 @@ func runJob(ctx context.Context, p *Prop, j *job, tier string, seed int64, work 
 	// on a timeout ask the Go runtime for its goroutine dump first (SIGQUIT), kill a little later
 	cmd.Cancel = func() error {
 		pid := cmd.Process.Pid
+		if failFast.Load() {
+			return syscall.Kill(-pid, syscall.SIGKILL) // tooling mode: no dump wanted, stop the whole group at once
+		}
 		syscall.Kill(pid, syscall.SIGQUIT)
 		go func() {
 			time.Sleep(4 * time.Second)
@@ -575,6 +578,10 @@ func runJob(ctx context.Context, p *Prop, j *job, tier string, seed int64, work 
 	cmd.WaitDelay = 10 * time.Second
 	err := cmd.Run()
 	j.dur = time.Since(t0)
+	if cmd.Process != nil {
+		// whatever the test process started (child processes of C08/C16) goes with it
+		syscall.Kill(-cmd.Process.Pid, syscall.SIGKILL)
+	}
 	if err != nil {
 		if ctx.Err() != nil && failFast.Load() {
 			j.skipped = true
